@@ -122,6 +122,23 @@ package main
 //	                             removing the SAME present key; no key is both removed and put, so every schedule must end in
 //	                             the same set. After all have returned: Length(), len(ToArray()), Exists of the keys 1..8.
 //	                             observation  len=<n> arr=<n> has=<k.k…|->  (of the first deviating trial, else of the last)
+//	plog <apps> <n> <nc> <first> <flags> <seed>
+//	                             (C20) a HISTORY of <apps> Apps started and closed one after the other in ONE process (a fresh
+//	                             race-detector child process), App i with its OWN recording logger L<i> installed through
+//	                             app.SetLogger. Every App has n plain components, nc closers and a user
+//	                             DefinitionRegistryPostProcessor. From App <first> on, the scanner (flags bit 0) writes one line
+//	                             per scanned component and every closer (flags bit 1) one line inside Close(), all through the
+//	                             SAME prefix logger syslog.Pref(<prefix of this scenario>) — the library's own idiom; the calls of
+//	                             one phase line up at a barrier, so the first use of the prefix after the root logger has been
+//	                             replaced comes from all goroutines of the parallel scan (or of the parallel Close) at once.
+//	                             Observed per App and phase: which loggers received the lines (`+`-joined, `-` = nothing
+//	                             written), whether each line written arrived exactly once, and the logger OBJECTS syslog.Pref
+//	                             handed to the callers of that phase.
+//	                             observation  scan=<t1>,<t2>,… close=<t1>,<t2>,… lines=<ok|lost|dup>
+//	rdel <g> <rounds>            forced concurrency on sync2.Map.Range: a real sync2.Map[string,*entry] with two permanent
+//	                             entries; one goroutine stores and deletes a THIRD key <rounds> times (a fresh entry each time),
+//	                             g goroutines enumerate with Range all the while. Every pair a Range reports is checked.
+//	                             observation  phantom=<pairs nobody stored> dup=<keys reported twice by one Range> missing=<permanent keys not reported>
 //
 // In `conc`, the scan/close cases run in a CHILD process (re-exec, hidden sub `concchild`) with
 // GORACE="halt_on_error=1 exitcode=66": a race report whose stack mentions github.com/go-kid/ioc becomes the
@@ -151,6 +168,13 @@ package main
 //          explained when the results of Range — and of Length calls that OVERLAP a Put/Remove: Length is
 //          len(ToArray()), one Range — are ignored has the signature range-not-atomic (KNOWN FINDING KF-C20-1), any
 //          other not-linearizable. A quiescent Length is never ignored.
+//   plog:  no race report; all callers of syslog.Pref(p) of one parallel phase (nothing replaces the root logger inside a phase)
+//          are handed ONE logger — the load-or-store of the prefix cache has one winner per key           (race, pref-two-loggers)
+//          and every line written through it arrives exactly once                                        (pref-line-lost)
+//          (WHICH logger that is — the current App's or the one of the App that first used the prefix — is an observation
+//          compared with the model, not an oracle: the unchanged library keeps handing out the first one)
+//   rdel / range / hist: every pair Range reports was stored under that key at some time (C20_range_regular)  (range-phantom-pair)
+//          rdel: a key that is present during the whole Range is reported exactly once, no key twice      (range-key-missing, range-key-twice)
 //   setlen: after the goroutines have returned, Length() = len(ToArray()) = the number of keys a sequential execution of
 //          the same calls leaves, and Exists holds for exactly those keys            (set-length-drift, set-final-state)
 
@@ -2310,6 +2334,347 @@ func runGscan(n, trials int, seed uint64) hx.Case {
 	return c
 }
 
+// ---------------------------------------------------------------- plog: a history of Apps, each with its own logger; one shared prefix
+
+// vPSink is what a recording root logger (and every logger derived from it with Pref / Level) writes to: it keeps, per
+// audit line, how often that line arrived. Safe for concurrent use.
+type vPSink struct {
+	root int
+	mu   sync.Mutex
+	got  map[string]int
+}
+
+func (s *vPSink) count(msg string) int {
+	s.mu.Lock()
+	defer s.mu.Unlock()
+	return s.got[msg]
+}
+
+// vPLogger: a user-supplied logger (syslog.Logger). Immutable after construction.
+type vPLogger struct {
+	sink *vPSink
+	pref string
+}
+
+func (l *vPLogger) write(msg string) {
+	if !strings.HasPrefix(msg, "vaudit ") { // the library's own lines are not looked at
+		return
+	}
+	l.sink.mu.Lock()
+	l.sink.got[msg]++
+	l.sink.mu.Unlock()
+}
+
+func (l *vPLogger) Level(syslog.Lv) syslog.Logger { return l }
+func (l *vPLogger) Pref(p any) syslog.Logger {
+	return &vPLogger{sink: l.sink, pref: l.pref + fmt.Sprintf("[%v]", p)}
+}
+func (l *vPLogger) Trace(v ...any)            {}
+func (l *vPLogger) Tracef(string, ...any)     {}
+func (l *vPLogger) Debug(v ...any)            {}
+func (l *vPLogger) Debugf(string, ...any)     {}
+func (l *vPLogger) Info(v ...any)             { l.write(fmt.Sprint(v...)) }
+func (l *vPLogger) Infof(f string, v ...any)  { l.write(fmt.Sprintf(f, v...)) }
+func (l *vPLogger) Warn(v ...any)             { l.write(fmt.Sprint(v...)) }
+func (l *vPLogger) Warnf(f string, v ...any)  { l.write(fmt.Sprintf(f, v...)) }
+func (l *vPLogger) Error(v ...any)            { l.write(fmt.Sprint(v...)) }
+func (l *vPLogger) Errorf(f string, v ...any) { l.write(fmt.Sprintf(f, v...)) }
+func (l *vPLogger) Panic(v ...any)            { panic(fmt.Sprint(v...)) }
+func (l *vPLogger) Panicf(f string, v ...any) { panic(fmt.Sprintf(f, v...)) }
+func (l *vPLogger) Fatal(v ...any)            { panic(fmt.Sprint(v...)) }
+func (l *vPLogger) Fatalf(f string, v ...any) { panic(fmt.Sprintf(f, v...)) }
+
+// vPPhase: the callers of syslog.Pref(prefix) of one parallel phase of one App: they line up, ask for the prefix logger,
+// write one line through it and remember which logger object they were handed.
+type vPPhase struct {
+	prefix  string
+	what    string // "a<i> scan" / "a<i> close"
+	parties int32
+	arrived int32
+	mu      sync.Mutex
+	handed  []syslog.Logger
+}
+
+func (ph *vPPhase) line(name string) string { return "vaudit " + ph.prefix + " " + ph.what + " " + name }
+
+func (ph *vPPhase) log(name string) {
+	spinBarrier(&ph.arrived, ph.parties, 20*time.Millisecond)
+	l := syslog.Pref(ph.prefix) // the library's idiom: syslog.Pref("<Name>") at the call site
+	l.Info(ph.line(name))
+	ph.mu.Lock()
+	ph.handed = append(ph.handed, l)
+	ph.mu.Unlock()
+}
+
+type vPScanner struct{ ph *vPPhase }
+
+func (s *vPScanner) Naming() string { return "vpscanner" }
+func (s *vPScanner) PostProcessDefinitionRegistry(registry container.DefinitionRegistry, component any, name string) error {
+	if s.ph != nil && strings.HasPrefix(name, "vq") {
+		s.ph.log(name)
+	}
+	return nil
+}
+
+type vPCloser struct {
+	N     string
+	ph    *vPPhase
+	calls int32
+	done  int32
+}
+
+func (c *vPCloser) Naming() string { return c.N }
+func (c *vPCloser) Close() error {
+	first := atomic.AddInt32(&c.calls, 1) == 1
+	if c.ph != nil && first {
+		c.ph.log(c.N)
+	}
+	atomic.StoreInt32(&c.done, 1)
+	return nil
+}
+
+// plogSerial: the prefix of a plog scenario is new to the process (the prefix cache is process-wide), whatever ran before
+var plogSerial int32
+
+// runPlog: see the header (`plog`).
+func runPlog(apps, n, nc, first int, flags, seed uint64) hx.Case {
+	scn := fmt.Sprintf("plog %d %d %d %d %d %d", apps, n, nc, first, flags, seed)
+	if apps < 1 || apps > 12 || n < 1 || n > 64 || nc < 0 || nc > 32 || first < 1 || first > apps || flags < 1 || flags > 3 {
+		return hx.Case{Scn: scn, Obs: "bad-line", Oracle: "FAIL bad-line"}
+	}
+	scanLogs, closeLogs := flags&1 != 0, flags&2 != 0 && nc > 0
+	tags := []string{"app-history-own-loggers-one-prefix", fmt.Sprintf("apps=%s", bucket(apps)), fmt.Sprintf("components=%s", bucket(n+nc)),
+		fmt.Sprintf("closers=%s", bucket(nc)), fmt.Sprintf("apps-after-prefix-cached=%s", bucket(apps-first))}
+	switch {
+	case scanLogs:
+		tags = append(tags, "first-use-after-new-root=parallel-scan")
+	case closeLogs:
+		tags = append(tags, "first-use-after-new-root=parallel-close")
+	}
+	if first == apps || !(scanLogs || closeLogs) || (scanLogs && n+nc < 2) || (!scanLogs && nc < 2) {
+		tags = append(tags, "trivial") // the prefix is never asked for after the root logger was replaced, or by one caller only
+	}
+	prefix := fmt.Sprintf("VAudit-%d-%d", atomic.AddInt32(&plogSerial, 1), seed)
+	sinks := make([]*vPSink, 0, apps)
+	var scanTo, closeTo []string
+	lines, oracle := "ok", ""
+	// evaluate one phase: where did its lines go, did each arrive once, were all callers handed one logger
+	eval := func(i int, ph *vPPhase, names []string) string {
+		if ph == nil {
+			return "-"
+		}
+		per := make([]int, len(sinks))
+		total, dup := 0, false
+		for _, name := range names {
+			k := 0
+			for j, s := range sinks {
+				c := s.count(ph.line(name))
+				per[j] += c
+				k += c
+			}
+			total += k
+			dup = dup || k > 1
+		}
+		var to, holders []string
+		for j, c := range per {
+			if c > 0 {
+				to = append(to, strconv.Itoa(j+1))
+				holders = append(holders, fmt.Sprintf("logger#%d:%d", j+1, c))
+			}
+		}
+		ph.mu.Lock()
+		objs := map[syslog.Logger]bool{}
+		for _, l := range ph.handed {
+			objs[l] = true
+		}
+		callers := len(ph.handed)
+		ph.mu.Unlock()
+		history := fmt.Sprintf("App %d of %d Apps started and closed one after the other in this process, each with its own logger through app.SetLogger "+
+			"(the prefix was first used by App %d)", i, apps, first)
+		switch {
+		case oracle != "":
+		case len(objs) > 1 || len(to) > 1:
+			oracle = fmt.Sprintf("FAIL pref-two-loggers %s: the %d callers of syslog.Pref(%q) in the parallel %s - no SetLogger / Level between their calls - were handed %d different "+
+				"loggers; their lines are split over %v: the load-or-store of the prefix cache let more than one caller win for one key", history, callers, ph.prefix, ph.what[strings.Index(ph.what, " ")+1:], len(objs), holders)
+		case total != len(names) || dup || callers != len(names):
+			if total < len(names) {
+				lines = "lost"
+			} else {
+				lines = "dup"
+			}
+			oracle = fmt.Sprintf("FAIL pref-line-lost %s: %d goroutines of the parallel %s each wrote one line through syslog.Pref(%q); %d callers returned, %d lines arrived at the recording "+
+				"loggers %v", history, len(names), ph.what[strings.Index(ph.what, " ")+1:], ph.prefix, callers, total, holders)
+		}
+		if len(to) == 0 {
+			return "none"
+		}
+		return strings.Join(to, "+")
+	}
+	for i := 1; i <= apps && oracle == ""; i++ {
+		sink := &vPSink{root: i, got: map[string]int{}}
+		sinks = append(sinks, sink)
+		var names, cnames []string
+		comps := make([]any, 0, n+nc+1)
+		var scanPh, closePh *vPPhase
+		if i >= first && scanLogs {
+			scanPh = &vPPhase{prefix: prefix, what: fmt.Sprintf("a%d scan", i), parties: int32(n + nc)}
+		}
+		if i >= first && closeLogs {
+			closePh = &vPPhase{prefix: prefix, what: fmt.Sprintf("a%d close", i), parties: int32(nc)}
+		}
+		comps = append(comps, &vPScanner{ph: scanPh})
+		for k := 0; k < n; k++ {
+			name := fmt.Sprintf("vqp%03d", k)
+			names = append(names, name)
+			comps = append(comps, &vPlain{N: name})
+		}
+		closers := make([]*vPCloser, nc)
+		for k := range closers {
+			closers[k] = &vPCloser{N: fmt.Sprintf("vqc%03d", k), ph: closePh}
+			names = append(names, closers[k].N)
+			cnames = append(cnames, closers[k].N)
+			comps = append(comps, closers[k])
+		}
+		a := app.NewApp()
+		var err error
+		if out := withWatchdog(20*time.Second, func() {
+			err = a.Run(app.SetLogger(&vPLogger{sink: sink}), app.SetComponents(comps...), app.SetConfigLoader())
+		}); out != "" || err != nil {
+			return hx.Case{Scn: scn, Obs: "run-" + out + "-failed", Oracle: "FAIL plog-run-failed App " + strconv.Itoa(i) + ": " + fmt.Sprint(err), Tags: tags}
+		}
+		scanTo = append(scanTo, eval(i, scanPh, names))
+		if out := withWatchdog(10*time.Second, func() { a.Close() }); out != "" {
+			return hx.Case{Scn: scn, Obs: out, Oracle: "FAIL close-" + out + " App.Close did not return normally", Tags: tags}
+		}
+		for _, c := range closers {
+			if oracle == "" && (atomic.LoadInt32(&c.calls) != 1 || atomic.LoadInt32(&c.done) != 1) {
+				oracle = fmt.Sprintf("FAIL close-not-all-once App %d: closer %s calls=%d done=%d when Close returned", i, c.N, atomic.LoadInt32(&c.calls), atomic.LoadInt32(&c.done))
+			}
+		}
+		closeTo = append(closeTo, eval(i, closePh, cnames))
+	}
+	obs := fmt.Sprintf("scan=%s close=%s lines=%s", strings.Join(scanTo, ","), strings.Join(closeTo, ","), lines)
+	return hx.Case{Scn: scn, Obs: obs, Oracle: oracle, Tags: tags}
+}
+
+func genPlog(r *hx.Rng, tier string) string {
+	apps := 2 + r.Intn(4)
+	if tier == "thorough" && r.P(1, 4) {
+		apps = 6 + r.Intn(7)
+	}
+	n := 8 + r.Intn(33)
+	if r.P(1, 8) {
+		n = 1 + r.Intn(7)
+	}
+	flags := uint64([]int{3, 3, 1, 2}[r.Intn(4)])
+	nc := r.Intn(13)
+	if flags&2 != 0 && nc < 2 {
+		nc = 2 + r.Intn(11)
+	}
+	first := 1
+	if r.P(1, 3) {
+		first = 1 + r.Intn(apps)
+	}
+	return fmt.Sprintf("plog %d %d %d %d %d %d", apps, n, nc, first, flags, r.U64()%1000000)
+}
+
+// ---------------------------------------------------------------- rdel: Range against Store/Delete of one key
+
+type vREntry struct{ key string }
+
+// runRdel: see the header (`rdel`).
+func runRdel(g, rounds int) hx.Case {
+	c := hx.Case{Scn: fmt.Sprintf("rdel %d %d", g, rounds)}
+	if g < 1 || g > 32 || rounds < 1 || rounds > 1000000 {
+		c.Obs, c.Oracle = "bad-line", "FAIL bad-line"
+		return c
+	}
+	c.Tags = []string{"forced-range-vs-delete", fmt.Sprintf("rangers=%s", bucket(g))}
+	const want = "phantom=0 dup=0 missing=0"
+	perm := map[string]*vREntry{"perm-a": {key: "perm-a"}, "perm-b": {key: "perm-b"}}
+	m := sync2.New[string, *vREntry]()
+	for k, e := range perm {
+		m.Store(k, e)
+	}
+	var stop int32
+	var firstBad atomic.Value // string
+	var phantom, dup, missing, ranges int64
+	var wg sync.WaitGroup
+	out := withWatchdog(60*time.Second, func() {
+		var arrived int32
+		wg.Add(g + 1)
+		go func() { // the writer: the temporary key comes and goes
+			defer wg.Done()
+			defer atomic.StoreInt32(&stop, 1)
+			spinBarrier(&arrived, int32(g+1), 50*time.Millisecond)
+			for r := 0; r < rounds && atomic.LoadInt64(&phantom)+atomic.LoadInt64(&dup)+atomic.LoadInt64(&missing) == 0; r++ {
+				m.Store("temp", &vREntry{key: "temp"})
+				if r%3 == 0 {
+					runtime.Gosched()
+				}
+				m.Delete("temp")
+			}
+		}()
+		for t := 0; t < g; t++ {
+			go func(t int) {
+				defer wg.Done()
+				spinBarrier(&arrived, int32(g+1), 50*time.Millisecond)
+				for done := false; !done; {
+					done = atomic.LoadInt32(&stop) == 1 // one more Range after the writer has finished
+					seen := map[string]int{}
+					m.Range(func(k string, v *vREntry) bool {
+						seen[k]++
+						if v == nil || v.key != k {
+							if atomic.AddInt64(&phantom, 1) == 1 {
+								firstBad.Store(fmt.Sprintf("Range %d of goroutine %d reported key %q with a value nobody stored under it (%v)", atomic.LoadInt64(&ranges), t, k, v))
+							}
+						}
+						return true
+					})
+					atomic.AddInt64(&ranges, 1)
+					for k, n := range seen {
+						if n > 1 {
+							atomic.AddInt64(&dup, 1)
+							firstBad.CompareAndSwap(nil, fmt.Sprintf("one Range reported key %q %d times", k, n))
+						}
+					}
+					for k := range perm {
+						if seen[k] == 0 {
+							atomic.AddInt64(&missing, 1)
+							firstBad.CompareAndSwap(nil, fmt.Sprintf("a Range did not report key %q, which is in the map all the time", k))
+						}
+					}
+				}
+			}(t)
+		}
+		wg.Wait()
+	})
+	if out != "" {
+		c.Obs, c.Oracle = out, "FAIL rdel-"+out+" the goroutines did not return"
+		return c
+	}
+	c.Obs = fmt.Sprintf("phantom=%d dup=%d missing=%d", min64(phantom, 1), min64(dup, 1), min64(missing, 1))
+	if c.Obs != want {
+		sig := "range-phantom-pair"
+		if phantom == 0 && dup > 0 {
+			sig = "range-key-twice"
+		} else if phantom == 0 {
+			sig = "range-key-missing"
+		}
+		first, _ := firstBad.Load().(string)
+		c.Oracle = fmt.Sprintf("FAIL %s a sync2.Map[string,*entry] {perm-a, perm-b}; one goroutine: %d x (Store(\"temp\", fresh entry); Delete(\"temp\")); %d goroutines Range all the while (%d Ranges): %s; "+
+			"every pair Range reports was stored under that key at some time, a key present all the time is reported once", sig, rounds, g, ranges, first)
+	}
+	return c
+}
+
+func min64(a, b int64) int64 {
+	if a < b {
+		return a
+	}
+	return b
+}
+
 // ---------------------------------------------------------------- child process for the race-enabled starts
 
 func concChildReplay(scn string, w *hx.Writer) {
@@ -2346,6 +2711,10 @@ func runLine(scn string, closeDelayMs int) hx.Case {
 		return runCloseC(int(num(1)), num(2), f[3], num(4), closeDelayMs)
 	case len(f) == 5 && f[0] == "closeb":
 		return runCloseB(int(num(1)), num(2), int(num(3)), num(4))
+	case len(f) == 7 && f[0] == "plog":
+		return runPlog(int(num(1)), int(num(2)), int(num(3)), int(num(4)), num(5), num(6))
+	case len(f) == 3 && f[0] == "rdel":
+		return runRdel(int(num(1)), int(num(2)))
 	case len(f) == 3 && f[0] == "gmor":
 		return runGmor(int(num(1)), int(num(2)))
 	case len(f) == 4 && f[0] == "gscan":
@@ -2529,6 +2898,7 @@ func runRange(nk, a int) hx.Case {
 	}
 	m.Range(func(int, int) bool { return true })
 	var visited, order []int
+	phantom := "" // a reported pair that nobody stored (every value stored is 1)
 	deleteAll := func() {
 		seen := map[int]bool{}
 		for _, k := range visited {
@@ -2555,6 +2925,9 @@ func runRange(nk, a int) hx.Case {
 	}
 	m.Range(func(k, v int) bool {
 		visited = append(visited, k)
+		if (v != 1 || k < 1 || k > nk) && phantom == "" {
+			phantom = fmt.Sprintf("(%d,%d)", k, v)
+		}
 		if len(visited) == a {
 			deleteAll()
 		}
@@ -2569,6 +2942,11 @@ func runRange(nk, a int) hx.Case {
 	}
 	if !okSet {
 		c.Oracle = fmt.Sprintf("FAIL range-not-atomic Range reported %v although the keys were deleted in the order %v", visited, order)
+	}
+	if phantom != "" {
+		// whatever Range may or may not see of a concurrent Delete: a pair it reports was in the map at some time
+		c.Oracle = fmt.Sprintf("FAIL range-phantom-pair sync2.Map {1..%d -> 1}; after %d visits of a Range another goroutine deleted the keys %v; the Range reported keys %v, among them the pair %s, "+
+			"which nobody ever stored (every value stored is 1)", nk, a, order, visited, phantom)
 	}
 	return c
 }
@@ -2971,12 +3349,51 @@ func histCase(init map[int]int, calls []hcall, universe []int, tags []string) hx
 		return c
 	}
 	c.Obs = "nonlin"
+	if ph := phantomPair(init, calls); ph != "" {
+		c.Oracle = "FAIL range-phantom-pair a recorded Range reported " + ph + ", a pair that is neither in the initial map nor stored by any call of the history"
+		return c
+	}
 	if linearizable(init, calls, universe, true) {
 		c.Oracle = "FAIL range-not-atomic the recorded history is explained only when the results of Range (or of a Length overlapping a Put/Remove) are ignored"
 	} else {
 		c.Oracle = "FAIL not-linearizable no sequential order of the recorded calls explains their results"
 	}
 	return c
+}
+
+// phantomPair: a pair k=v in the result of a recorded Range whose value no call of the history (and not the initial map) ever
+// put under k. Ignoring Range's results (KF-C20-1: Range is not atomic) does not cover such a history: a non-atomic Range
+// still reports only pairs that were in the map at some time (C20_range_regular).
+func phantomPair(init map[int]int, calls []hcall) string {
+	for _, c := range calls {
+		if c.kind != "R" || !strings.HasPrefix(c.res, "s") {
+			continue
+		}
+		for _, p := range strings.Split(c.res, "/")[1:] {
+			kv := strings.Split(p, "=")
+			if len(kv) != 2 {
+				continue
+			}
+			k, err1 := strconv.Atoi(kv[0])
+			v, err2 := strconv.Atoi(kv[1])
+			if err1 != nil || err2 != nil {
+				continue
+			}
+			stored := false
+			if iv, ok := init[k]; ok && iv == v {
+				stored = true
+			}
+			for _, o := range calls {
+				if (o.kind == "S" || o.kind == "LS" || o.kind == "LF") && o.k == k && o.v == v {
+					stored = true
+				}
+			}
+			if !stored {
+				return p
+			}
+		}
+	}
+	return ""
 }
 
 // recheckHist re-decides a recorded history line (a recorded interleaving cannot be re-run).
@@ -3249,6 +3666,12 @@ func concCorpus(w *hx.Writer) {
 	// the closing phase under the built-in logger (a fresh process: the logger is built on the scratch file before the first
 	// App logs): 12 / 24 closers that all fail at the same moment; some failing among others; one; nobody
 	runInChild([]string{"closeb 12 4095 4 1", "closeb 24 16777215 3 2", "closeb 16 42405 3 3", "closeb 2 3 6 4", "closeb 5 4 2 5", "closeb 3 0 1 6"}, w)
+	// seventh round. A history of Apps in one process, each with its own logger, user scanner and closers logging through one
+	// syslog.Pref prefix: 4 Apps x 24 components; the prefix first used by the closers of App 2; by the scanner only; one App
+	runInChild([]string{"plog 4 16 8 1 3 1", "plog 5 4 12 2 2 2", "plog 3 40 0 1 1 3", "plog 1 8 4 1 3 4"}, w)
+	// Range against Store/Delete of one key: every reported pair was stored
+	w.Put(runRdel(4, 1500))
+	w.Put(runRdel(1, 300))
 }
 
 func concGen(rng *hx.Rng, n int, tier string, w *hx.Writer) {
@@ -3394,11 +3817,28 @@ func concGen(rng *hx.Rng, n int, tier string, w *hx.Writer) {
 		}
 		runInChild(ls, w)
 	}
+	// (a-6) seventh round: histories of Apps with their own loggers and one shared syslog.Pref prefix: one fresh child process
+	// for the batch (quick 6, thorough 30 lines); Range against Store/Delete of one key (quick 3, thorough 12 cases)
+	{
+		nl, nr, rounds := 6, 3, 1500
+		if tier == "thorough" {
+			nl, nr, rounds = 30, 12, 20000
+		}
+		var ls []string
+		for i := 0; i < nl; i++ {
+			ls = append(ls, genPlog(rng.Fork(), tier))
+		}
+		runInChild(ls, w)
+		for i := 0; i < nr; i++ {
+			r := rng.Fork()
+			w.Put(runRdel([]int{2, 3, 4, 4, 6, 8}[r.Intn(6)], rounds))
+		}
+	}
 }
 
 func concReplay(scn string, w *hx.Writer) {
 	f := strings.Fields(scn)
-	if len(f) > 0 && (((f[0] == "scan" || f[0] == "fstart" || f[0] == "gscan") && raceEnabled) || f[0] == "cstart" || f[0] == "closel" || f[0] == "closeb") {
+	if len(f) > 0 && (((f[0] == "scan" || f[0] == "fstart" || f[0] == "gscan") && raceEnabled) || f[0] == "cstart" || f[0] == "closel" || f[0] == "closeb" || f[0] == "plog") {
 		runInChild([]string{scn}, w)
 		return
 	}
